@@ -199,7 +199,8 @@ def rename_ast(x, m):
 
 
 def with_prefix(text):
-    return "PREFIX x: <urn:> " + text.replace("<urn:p>", "x:p").replace("<urn:q>", "x:q")
+    # two prefixes for one namespace: a legal prologue that a one-prefix-per-namespace table cannot hold
+    return "PREFIX x: <urn:> PREFIX y: <urn:> " + text.replace("<urn:p>", "x:p").replace("<urn:q>", "y:q")
 
 
 BGPS = {
